@@ -166,6 +166,10 @@ func sel(prev string, p Place) string {
 		return fmt.Sprintf("%s.kids[%d]", prev, p.B)
 	case "dict":
 		return fmt.Sprintf("%s.dict[%d]!", prev, p.B)
+	case "ocell":
+		return fmt.Sprintf("%s.opts[%d]!", prev, p.B)
+	case "odict":
+		return fmt.Sprintf("%s.odRef(%d)!", prev, p.B)
 	}
 	panic("sel " + p.K)
 }
@@ -227,6 +231,14 @@ func (t *txr) take(path []Place) string {
 		o := t.tmp("t")
 		t.line("let %s <- %s.takeDict(%d)", o, par, last.B)
 		return o
+	case "ocell":
+		o := t.tmp("t")
+		t.line("let %s <- %s.takeCell(%d)", o, par, last.B)
+		return o
+	case "odict":
+		o := t.tmp("t")
+		t.line("let %s <- %s.takeOD(%d)", o, par, last.B)
+		return o
 	}
 	panic("take " + last.K)
 }
@@ -251,6 +263,10 @@ func (t *txr) put(path []Place, x string) {
 		t.line("%s.addKid(%d, <- %s)", par, last.B, x)
 	case "dict":
 		t.line("%s.putDict(%d, <- %s)", par, last.B, x)
+	case "ocell":
+		t.line("%s.setCell(%d, <- %s)", par, last.B, x)
+	case "odict":
+		t.line("%s.setOD(%d, <- %s)", par, last.B, x)
 	}
 }
 
@@ -324,6 +340,14 @@ func (t *txr) step(s Step) {
 			o := t.tmp("t")
 			t.line("let %s <- %s.swapDict(%d, <- %s)", o, par, mid.B, x)
 			old = o
+		case "ocell":
+			o := t.tmp("t")
+			t.line("let %s <- %s.swapCell(%d, <- %s)", o, par, mid.B, x)
+			old = o
+		case "odict":
+			o := t.tmp("t")
+			t.line("let %s <- %s.swapOD(%d, <- %s)", o, par, mid.B, x)
+			old = o
 		}
 		t.put(s.Dp, old)
 	case "destroy":
@@ -350,6 +374,15 @@ func (t *txr) step(s Step) {
 				t.line("r%d = %s.kids[%d]", s.K, par, last.B)
 			case "dict":
 				t.line("r%d = %s.dict[%d]", s.K, par, last.B)
+			case "ocell":
+				// directly, or through a function returning the reference
+				if t.n%2 == 0 {
+					t.line("r%d = %s.opts[%d]", s.K, par, last.B)
+				} else {
+					t.line("r%d = %s.cellRef(%d)", s.K, par, last.B)
+				}
+			case "odict":
+				t.line("r%d = %s.odRef(%d)", s.K, par, last.B)
 			}
 		}
 	case "borrow":
